@@ -4,7 +4,7 @@
 Require Import ZArith List String Bool Reals.
 Import ListNotations.
 From GLMV Require Import Expr SemR Cat Comm Chk SpecLinAlg SpecProj SpecGeom.
-From W Require Gen_C12 P_C12 P_C12_b P_C12_c P_C12_d.
+From W Require Gen_C12 P_C12 P_C12_b P_C12_c P_C12_d P_C12_gs.
 Local Open Scope string_scope.
 Local Open Scope Z_scope.
 
@@ -44,6 +44,11 @@ Theorem C12_gtx_l1Norm : P_C12_d.l1Norm_ok. Proof. exact P_C12_d.l1Norm_def. Qed
 Theorem C12_gtx_l1Norm_of_difference : P_C12_d.l1Norm2_ok. Proof. exact P_C12_d.l1Norm2_def. Qed.
 Theorem C12_gtx_l2Norm : P_C12_d.l2Norm_ok. Proof. exact P_C12_d.l2Norm_def. Qed.
 Theorem C12_gtx_l2Norm_of_difference : P_C12_d.l2Norm2_ok. Proof. exact P_C12_d.l2Norm2_def. Qed.
+(* gtx orthonormalize(mat3): the tree IS the Gram-Schmidt process on the columns, and that process yields orthonormal columns whenever its three radicands are positive *)
+Theorem C12_gtx_orthonormalize_mat3_is_gram_schmidt : forall env, evalT env Gen_C12.t_orthonormalize_m3_f32 = Some (true, P_C12_gs.flat (P_C12_gs.gs env)).
+Proof. exact P_C12_gs.gs_tree. Qed.
+Theorem C12_gtx_gram_schmidt_is_orthonormal : forall env, (0 < P_C12_gs.rad1 env)%R -> (0 < P_C12_gs.rad2 env)%R -> (0 < P_C12_gs.rad3 env)%R -> P_C12_gs.orthonormal9 (P_C12_gs.flat (P_C12_gs.gs env)).
+Proof. exact P_C12_gs.gs_orthonormal. Qed.
 Theorem C12_gtx_lMaxNorm : P_C12_d.lMaxNorm_ok. Proof. exact P_C12_d.lMaxNorm_def. Qed.
 Theorem C12_gtx_lMaxNorm_of_difference : P_C12_d.lMaxNorm2_ok. Proof. exact P_C12_d.lMaxNorm2_def. Qed.
 Theorem C12_gtx_lxNorm : P_C12_d.lxNorm_ok. Proof. exact P_C12_d.lxNorm_def. Qed.
